@@ -24,13 +24,15 @@ CONSTANTS NKeys,       \* keys are 1..NKeys
           Scalars,     \* names whose values are Python floats / ints
           Size1s,      \* names whose values are arrays of shape (1,)
           Vectors,     \* names whose values are arrays of shape (n,), n > 1
-          Matrices     \* names whose values are 2-D arrays
+          Matrices,    \* names whose values are 2-D arrays
+          WithProblem  \* BOOLEAN: the database belongs to an OptimizationProblem that is exported too
 VARIABLES db,          \* the database in memory: sequence of entries
           pending,     \* keys stored since the last export (or since the load)
           disk,        \* content of the file: sequence of entries
-          exists       \* the file exists
+          exists,      \* the file exists
+          descr        \* the file holds the description of the problem (functions, solution, settings)
 
-avars == <<db, pending, disk, exists>>
+avars == <<db, pending, disk, exists, descr>>
 
 \* The names the configurations choose from, in the order of Python's sorted() on str, i.e. by
 \* code point ('@' = 64 < 'X' = 88 < '_' = 95 < 'a' = 97); TLC cannot compare strings, and its
@@ -38,7 +40,7 @@ avars == <<db, pending, disk, exists>>
 Universe == <<"@f", "@g", "Xtra", "_h", "c", "f", "f2", "g", "obj">>
 Sorted == SelectSeq(Universe, LAMBDA n : n \in Names)
 Kinds == {"scalar", "size1", "vector", "matrix"}
-ASSUME /\ NKeys \in Nat
+ASSUME /\ NKeys \in Nat /\ WithProblem \in BOOLEAN
        /\ Names \subseteq {Universe[i] : i \in 1..Len(Universe)}
        /\ Scalars \cup Size1s \cup Vectors \cup Matrices = Names
        /\ Cardinality(Scalars) + Cardinality(Size1s) + Cardinality(Vectors) + Cardinality(Matrices)
@@ -61,9 +63,9 @@ EntryOK(e) == /\ e.key \in 1..NKeys
 TypeOK == /\ Len(db) <= NKeys /\ \A i \in DOMAIN db : EntryOK(db[i])
           /\ Len(disk) <= NKeys /\ \A i \in DOMAIN disk : EntryOK(disk[i])
           /\ pending \subseteq KeysOf(db)
-          /\ exists \in BOOLEAN
+          /\ exists \in BOOLEAN /\ descr \in BOOLEAN /\ (descr => exists)
 
-Init == db = <<>> /\ pending = {} /\ disk = <<>> /\ exists = FALSE
+Init == db = <<>> /\ pending = {} /\ disk = <<>> /\ exists = FALSE /\ descr = FALSE
 
 \* store(x, outputs) into one database: a new point is appended, an existing one is updated
 \* (dict.update: the stored value of a name present on both sides is replaced).
@@ -78,7 +80,7 @@ Store(key, names) ==
   /\ key = Len(db) + 1 /\ key <= NKeys
   /\ db' = StoreInto(db, Entry(key, names))
   /\ pending' = pending \cup {key}
-  /\ UNCHANGED <<disk, exists>>
+  /\ UNCHANGED <<disk, exists, descr>>
 
 \* Database.store(x_existing, {new names...}); names = {} is a store that brings nothing new
 StoreMore(key, names) ==
@@ -86,7 +88,7 @@ StoreMore(key, names) ==
   /\ names \cap NamesOf(db[Pos(db, key)]) = {}
   /\ db' = StoreInto(db, Entry(key, names))
   /\ pending' = pending \cup {key}
-  /\ UNCHANGED <<disk, exists>>
+  /\ UNCHANGED <<disk, exists, descr>>
 
 \* What an append export adds: the entries of the pending keys, at their position in the
 \* database; an entry already in the file keeps what it has and gains the names it lacks.
@@ -102,10 +104,22 @@ Appended ==
       order == SelectSeq([i \in 1..NKeys |-> i], LAMBDA i : i \in idx)
   IN [j \in 1..Len(order) |-> at(order[j])]
 
-\* Database.to_hdf(path, append) / OptimizationProblem.to_hdf(path, append)
+\* Database.to_hdf(path, append); without append the file is rewritten: a problem description
+\* that was in it is gone
 Export(append) ==
   /\ disk' = IF append /\ exists /\ disk # <<>> THEN Appended ELSE db
   /\ exists' = TRUE
+  /\ descr' = (descr /\ append)
+  /\ pending' = {}
+  /\ UNCHANGED db
+
+\* OptimizationProblem.to_hdf(path, append): the description (written unless appended to a file that
+\* has one) and the database of the problem
+ExportProblem(append) ==
+  /\ WithProblem
+  /\ disk' = IF append /\ exists /\ disk # <<>> THEN Appended ELSE db
+  /\ exists' = TRUE
+  /\ descr' = TRUE
   /\ pending' = {}
   /\ UNCHANGED db
 
@@ -114,7 +128,7 @@ Reload ==
   /\ exists
   /\ db' = disk
   /\ pending' = KeysOf(disk)
-  /\ UNCHANGED <<disk, exists>>
+  /\ UNCHANGED <<disk, exists, descr>>
 
 \* db.update_from_hdf(path) into the (possibly non-empty) working database
 RECURSIVE StoreAll(_, _, _)
@@ -123,12 +137,20 @@ Update ==
   /\ exists
   /\ db' = StoreAll(db, disk, 1)
   /\ pending' = pending \cup KeysOf(disk)
-  /\ UNCHANGED <<disk, exists>>
+  /\ UNCHANGED <<disk, exists, descr>>
+
+\* the working problem is replaced by OptimizationProblem.from_hdf(path)
+ReloadProblem ==
+  /\ WithProblem /\ descr
+  /\ db' = disk
+  /\ pending' = KeysOf(disk)
+  /\ UNCHANGED <<disk, exists, descr>>
 
 Next == \/ \E key \in 1..NKeys, names \in SUBSET Names : Store(key, names) \/ StoreMore(key, names)
-        \/ \E a \in BOOLEAN : Export(a)
+        \/ \E a \in BOOLEAN : Export(a) \/ ExportProblem(a)
         \/ Reload
         \/ Update
+        \/ ReloadProblem
 Spec == Init /\ [][Next]_avars
 
 -----------------------------------------------------------------------------
@@ -141,6 +163,6 @@ PendingCovers ==
 RoundTrip == (exists /\ pending = {}) => disk = db
 \* the same as a step property: whatever the history, whatever the mode (append or full), the
 \* export leaves the content of the database in the file -- hence append = one final full export.
-ExportStep == \E a \in BOOLEAN : Export(a)
+ExportStep == \E a \in BOOLEAN : Export(a) \/ ExportProblem(a)
 AppendEqualsFull == [][ExportStep => disk' = db']_avars
 =============================================================================
